@@ -114,6 +114,19 @@ def stepOpt (d : D) (ws : List String) : Option (D × String) :=
     | ["bad", k, src, _n] => do
       let k ← badKind? k; let src ← ofHex? src
       pure (doTx d (.bad k src))
+    | ["vmstake", _o, k, v] => do
+      let k ← ofHex? k; let v ← v.toNat?
+      let st := { d.st with code := toAddr k :: d.st.code }
+      pure ({ d with st := vmStake realCfg st (toAddr k) v }, "ok")
+    | ["vmunstake", o, k, v] => do
+      let o ← ofHex? o; let k ← ofHex? k; let v ← v.toNat?
+      let st := { d.st with code := toAddr k :: d.st.code }
+      pure ({ d with st := vmUnstake realCfg st (toAddr o) (toAddr k) v }, "ok")
+    | ["vmunstakeall", _o, k] => do
+      let k ← ofHex? k
+      let st := { d.st with code := toAddr k :: d.st.code }
+      let r := vmUnstakeAll realCfg st (toAddr k)
+      pure ({ d with st := r.2 }, if r.1 then "ok" else "err")
     | ["endblock", n] => do
       let n ← n.toNat?
       pure ({ d with st := endBlock d.st n, heights := d.heights ++ [n] }, "ok")
